@@ -165,6 +165,7 @@ inline mpz_class to_mpz(u128 v)
     mpz_class lo(static_cast<unsigned long>(static_cast<std::uint64_t>(v)));
     return (hi << 64) + lo;
 }
+inline mpz_class to_mpz(mpz_class const& z) { return z; }
 inline mpz_class to_mpz(i128 v)
 {
     if (v >= 0) return to_mpz(static_cast<u128>(v));
